@@ -290,7 +290,7 @@ func runC07(r *rt.Runner) {
 	for _, cell := range isolationMatrix() {
 		cell := cell
 		r.Do("iso/"+cell.ID, func(c *rt.C) {
-			c07Run(c, cell.Bundle.sources(), "iso:"+cell.ID, !cell.TotalityOnly, "isolation")
+			c07Run(c, cell.Bundle.sources(), "iso:"+cell.ID, !cell.TotalityOnly || cell.MustAccept, "isolation")
 		})
 	}
 	// --- random bundles of the documented language --------------------------------------------------------
